@@ -1348,6 +1348,13 @@ class Interp:
         else:
             ft = self.eval(f, env, frame, cond)
             recv = f.value if isinstance(f, ast.Attribute) else None
+            if ft[0] == 'attr' and isinstance(f, ast.Attribute):
+                # an opaque method is called on the receiver *as it is now*:
+                # attribute stores made so far stay visible in the call term
+                full = self.eval(f.value, env, frame, cond)
+                if full[0] == 'upd' and full[2] == 'attr' and full != ft[1] and \
+                        ft[2] == f.attr:
+                    ft = intern(('attr', full, f.attr))
         return self.apply(ft, pos, kws, frame, cond, e, env,
                           wb=(recv, pos_nodes, kw_nodes))
 
